@@ -175,6 +175,50 @@ def c08(run):
                              'every key of the live spelling tables parsed through ParseEnumeration denotes (lexicon, exact) the magnitude of the enumerator it parses to; non-trivial = spelling differs from the abbreviation')
     run.assumptions += ['the unit lexicon of DESIGN.md Appendix A']
 
+@plan('C19')
+def c19(run):
+    import shutil
+    exes = D.build_or_violation(run, ['introspect'])
+    if not exes: return
+    D.factors_file(exes['introspect'])   # makes sure introspect.json exists
+    work = os.path.join(D.tree_dir(), 'c19-%s-%d' % (run.tier, os.getpid()))
+    out = work + '.json'
+    vt = shutil.which('python3-vt') or sys.executable
+    p = subprocess.run([vt, os.path.join(D.VERIF, 'tools', 'c19.py'), D.REPO, work, os.path.join(D.gen_dir(), 'scan.json'), os.path.join(D.tree_dir(), 'introspect.json'), run.tier, str(D.SEED), out],
+                       stdout=subprocess.PIPE, stderr=subprocess.STDOUT, text=True)
+    if p.returncode != 0 or not os.path.exists(out):
+        run.fails.append(dict(kind='harness', key='c19', msg='program generator failed: ' + p.stdout[-1500:])); return
+    r = json.load(open(out)); os.remove(out)
+    run.evaluations += r['configurations_run']
+    # distinct non-trivial: (program, compiler, optimisation level, link order) runs of programs that contain at least one table-backed probe
+    run.nontrivial += int(r['configurations_run'] * r['programs_with_table_probes'] / max(1, r['programs']))
+    run.classes.update({'c19:' + k: v for k, v in r['classes'].items()})
+    run.samples += r['samples']
+    run.per_check['c19.programs'] = dict(programs=r['programs'], probes=r['probes'], configurations_run=r['configurations_run'], dispatch_free_programs=r['dispatch_free_programs'])
+    run.rules['c19.programs'] = ('programs of 1-3 translation units with 1-5 namespace-scope probes each, generated from a grammar with Hypothesis strategies (seeded): construct in a unit, Value/Print/JSON/XML/YAML in a unit, free Convert on scalars and '
+                                 'std::vector, Create/StaticValue, Abbreviation, ParseEnumeration, ConsistentUnit, RelatedUnitSystem, streaming, comparison, Dimensions, constitutive models, relations; built with {g++, clang++} x {-O0, -O2} x both link '
+                                 'orders; oracle: exit 0 and every before-main value equals the in-main value; non-trivial: the program has a table-backed probe')
+    run.assumptions += ['explores the dynamic-initialisation orders that the installed g++ 12 and clang++ 14 emit; other compilers, LTO and dynamic loading are not covered']
+    seen = set()
+    for k in r['known']:
+        if k['key'] in seen: continue
+        seen.add(k['key'])
+        run.fails.append(dict(kind='c19', key=k['key'], known_key=k['key'], msg=k['msg'], program=k['program']))
+    keep = os.path.join(D.out_root(), 'replays', 'C19')
+    for v in r['violations'][:6]:
+        os.makedirs(keep, exist_ok=True)
+        dst = os.path.join(keep, 'prog-' + D.sha(v['program'], v['msg'])[:12])
+        if os.path.isdir(v['program']) and not os.path.exists(dst): shutil.copytree(v['program'], dst)
+        run.fails.append(dict(kind='c19', key=v['key'], msg=v['msg'], program=dst))
+    shutil.rmtree(work, ignore_errors=True)
+
 def replay_other(f, path):
+    if f.get('kind') == 'c19':
+        vt = __import__('shutil').which('python3-vt') or sys.executable
+        p = subprocess.run([vt, os.path.join(D.VERIF, 'tools', 'c19.py'), '--replay', f['program'], D.REPO], stdout=subprocess.PIPE, stderr=subprocess.STDOUT, text=True)
+        print(p.stdout[-3000:])
+        if p.returncode != 0:
+            print('VIOLATION property=%s replay=%s' % (f['property'], path)); return 1
+        return 0
     print('replay: unknown kind %s' % f.get('kind'))
     return 2
